@@ -44,9 +44,7 @@ func runC06(p *Program, r *Report) {
 				continue
 			}
 			n++
-			if !pth.HasMatching(func(nm string, val bool) bool {
-				return val && strings.HasPrefix(nm, "(==") && strings.Contains(nm, "escapeErr") && strings.HasSuffix(strings.Split(nm, "@")[0], " nil)")
-			}) {
+			if ts := discoverTmplStatus(p); !ts.pathImplies(pe, pth, "fresh") {
 				ok = false
 			}
 		}
@@ -115,8 +113,10 @@ func runC06(p *Program, r *Report) {
 				continue
 			}
 			// accepted idiom: a dominating test that the source template has not been analysed yet
+			ts := discoverTmplStatus(p)
 			notCommitted := allPathsGuard(pv, cp.Block(), func(a Atom) bool {
-				return a.Pol && a.E.Op == "binop" && a.E.Name == "==" && strings.Contains(a.E.Args[0].String(), "escapeErr") && a.E.Args[1].Op == "const" && a.E.Args[1].Const == nil
+				v, pol := atomCond(a)
+				return v != nil && ts.condExcludes(v, pol, "ok")
 			}, 0)
 			if notCommitted {
 				r.OK("C06.R3", c, pos, "copied only while the source template has not been analysed (its tree is still as parsed)")
